@@ -185,6 +185,11 @@ func (e *Engine) checkInverted(
 		go check(ctx, innerCh)
 		select {
 		case result := <-innerCh:
+			// a failed sub-check has no membership that could be inverted
+			if result.Err != nil {
+				resultCh <- checkgroup.Result{Err: result.Err}
+				return
+			}
 			// invert result here
 			switch result.Membership {
 			case checkgroup.IsMember:
